@@ -172,3 +172,35 @@ pub fn run_incremental(p: &Prepared, lines: &[String]) -> (String, Vec<Option<(V
     }
     (items.join("|"), steps)
 }
+
+/// `-0.0 ↦ 0.0`, every NaN ↦ the canonical NaN (also inside arrays): two values that are equal in the value order but
+/// print differently become identical. Used to recognise finding D60 exactly (tables equal after this mapping, different raw).
+pub fn canon_zero_nan(v: &sqlgrep::model::Value) -> sqlgrep::model::Value {
+    use sqlgrep::model::{Float, Value};
+    match v {
+        Value::Float(Float(f)) if *f == 0.0 => Value::Float(Float(0.0)),
+        Value::Float(Float(f)) if f.is_nan() => Value::Float(Float(f64::NAN)),
+        Value::Array(t, xs) => Value::Array(t.clone(), xs.iter().map(canon_zero_nan).collect()),
+        other => other.clone(),
+    }
+}
+
+/// the batch table at value level: every line through `execute` with the update-only configuration, then one result
+/// (`None`: an error or a panic)
+pub fn run_batch_rows(p: &Prepared, lines: &[String]) -> Option<(Vec<String>, Vec<Vec<sqlgrep::model::Value>>)> {
+    let res = catch(|| -> Result<(Vec<String>, Vec<Vec<sqlgrep::model::Value>>), String> {
+        let mut engine = ExecutionEngine::new(&p.tables, &p.statement);
+        engine.execute_joined_table(Arc::new(AtomicBool::new(true))).map_err(|e| format!("{}", e))?;
+        let config = engine.execution_config();
+        for line in lines {
+            engine.execute(line.clone(), &config).map_err(|e| format!("{}", e))?;
+        }
+        let o = engine.execute(String::new(), &ExecutionConfig::aggregate_result()).map_err(|e| format!("{}", e))?;
+        match o.result_row {
+            Some(r) => Ok((r.columns, r.data.into_iter().map(|x| x.columns).collect())),
+            None => Ok((Vec::new(), Vec::new())),
+        }
+    });
+    match res { Caught::Done(Ok(t)) => Some(t), _ => None }
+}
+
